@@ -103,8 +103,11 @@ fn collect_type_dec(
     td.info
         .slice(tokens)
         .iter()
-        .filter_map(|token| {
-            let semantic_token = if matches!(&td.name, Some(name) if name.to_range() == token.range)
+        .enumerate()
+        .filter_map(|(i, token)| {
+            // the name is the last token of its (token) range, relative to the declaration
+            let token_pos = td.info.range.start + i;
+            let semantic_token = if matches!(&td.name, Some(name) if name.to_range().end == token_pos + 1)
             {
                 Some(create_semantic_token(
                     token,
@@ -146,8 +149,11 @@ fn collect_proc_dec(
     pd.info
         .slice(tokens)
         .iter()
-        .filter_map(|token| {
-            let semantic_token = if matches!(&pd.name, Some(name) if name.to_range() == token.range)
+        .enumerate()
+        .filter_map(|(i, token)| {
+            // the name is the last token of its (token) range, relative to the declaration
+            let token_pos = pd.info.range.start + i;
+            let semantic_token = if matches!(&pd.name, Some(name) if name.to_range().end == token_pos + 1)
             {
                 Some(create_semantic_token(
                     token,
@@ -173,7 +179,10 @@ fn collect_proc_dec(
                         SemanticTokenModifier::None.into(),
                     ),
                     Entry::Variable(variable) => {
-                        let modifier = if variable.name.to_range() == token.range {
+                        // the entry's range is relative to the procedure, the name's to the entry
+                        let modifier = if variable.range.start + variable.name.to_range().end
+                            == token_pos + 1
+                        {
                             SemanticTokenModifier::Declaration
                         } else {
                             SemanticTokenModifier::None
@@ -187,7 +196,9 @@ fn collect_proc_dec(
                         )
                     }
                     Entry::Parameter(param) => {
-                        let modifier = if param.name.to_range() == token.range {
+                        let modifier = if param.range.start + param.name.to_range().end
+                            == token_pos + 1
+                        {
                             SemanticTokenModifier::Declaration
                         } else {
                             SemanticTokenModifier::None
